@@ -433,6 +433,7 @@ type VC struct {
 	SMT     string // full SMT-LIB text (without check-sat)
 	Goal    string // readable goal
 	ExpectSat bool // vacuity canaries: "sat" is the good answer
+	Known     bool // obligation of a recorded known finding: expected to fail, solved once with a short limit
 	// results
 	Status  string // unsat | sat | unknown | timeout | error
 	Solver  string
@@ -600,6 +601,10 @@ func solveAll(vcs []*VC, secs int, mode string, par int) {
 			defer func() { <-sem }()
 			if vc.ExpectSat {
 				solveVC(vc, i, 2, "quick1")
+				return
+			}
+			if vc.Known {
+				solveVC(vc, i, 4, "quick1")
 				return
 			}
 			solveVC(vc, i, secs, mode)
